@@ -591,6 +591,9 @@ func lenGuardFor(fn *ssa.Function, gs []guard, blk *ssa.BasicBlock, bt string, k
 		}
 		succ := g.If.Block().Succs[side]
 		if succ.Dominates(blk) && (len(succ.Preds) == 1 || everyPathUsesEdge(fn, map[[2]*ssa.BasicBlock]bool{{g.If.Block(), succ}: true}, blk)) {
+			if storeBetween(fn, "&"+bt, succ, blk) {
+				continue // the tested memory location is overwritten between the test and the use
+			}
 			return "dominated by the length test " + t, true
 		}
 	}
@@ -897,4 +900,28 @@ func xorOK(p *Prog, fn *ssa.Function, depth int) bool {
 		return false
 	}
 	return true
+}
+
+
+// storeBetween: is there a store to the address rendered as addrTerm in a block
+// that lies on a path from `from` to `to`? (A load term such as p0.Version does
+// not identify a value across such a store.)
+func storeBetween(fn *ssa.Function, addrTerm string, from, to *ssa.BasicBlock) bool {
+	tm := newTermer()
+	reachFrom := reachableFrom(from)
+	for _, b := range fn.Blocks {
+		if !reachFrom[b] {
+			continue
+		}
+		for _, ins := range b.Instrs {
+			st, ok := ins.(*ssa.Store)
+			if !ok || tm.term(st.Addr) != addrTerm {
+				continue
+			}
+			if b == to || reachableFrom(b)[to] {
+				return true
+			}
+		}
+	}
+	return false
 }
